@@ -90,7 +90,7 @@ def build_fragment(f, cls, tag, exact_dir=None):
     else:
         ix = lambda i: i                               # noqa: E731
     kw = {}
-    if cls is ml.Molecule:
+    if issubclass(cls, ml.Molecule):
         kw["atomic_charges"] = np.linspace(-0.3, 0.3, len(atoms))
     m = cls(atoms, name=f"frag{tag}", charge=f["charge"], mult=f["mult"], coords=coords, **kw)
     for i in range(1, n):
@@ -107,6 +107,21 @@ def build_fragment(f, cls, tag, exact_dir=None):
         else:
             m.connect(ix(anchor), ix(ai), btype=bt)
     return m, [ix(ai) for ai, _ in aps]
+
+
+_M32 = []
+
+
+def _mol32():
+    """a Molecule subclass declared through the public __init_subclass__ hook with single-precision coordinates"""
+    if not _M32:
+        import molli as ml
+
+        class Molecule32(ml.Molecule, coords_dtype=np.float32):
+            pass
+
+        _M32.append(Molecule32)
+    return _M32[0]
 
 
 def kabsch_fit(P, Q):
@@ -131,6 +146,9 @@ def check_one_join(A, B, apA, apB, kw, cls, where, fails, determinism=True, name
     import molli as ml
     from molli.chem import BondType, BondStereo, Element
 
+    # numerical tolerance: 1e-6 for double-precision classes, scaled to the coordinate magnitude for a single-precision class
+    f32 = np.asarray(A.coords).dtype == np.float32
+    TOL = 1e-6 if not f32 else 2e-5 * max(1.0, float(np.nanmax(np.abs(A.coords))) if A.n_atoms else 1.0, float(np.nanmax(np.abs(B.coords))) if B.n_atoms else 1.0)
     a1, a2 = A.atoms[apA], B.atoms[apB]
     a1r = next(A.connected_atoms(a1))
     a2r = next(B.connected_atoms(a2))
@@ -194,8 +212,8 @@ def check_one_join(A, B, apA, apB, kw, cls, where, fails, determinism=True, name
             return P
         if len(S) >= 2:
             prop, improp = kabsch_fit(S, Q)
-            if prop > 1e-6:
-                if improp <= 1e-6 and len(S) >= 4:
+            if prop > TOL:
+                if improp <= TOL and len(S) >= 4:
                     fails.append(Fail(f"fragment-{nm}-mirrored", f"{where}: proper fit rmsd {prop:.3e}, improper {improp:.3e}"))
                 else:
                     fails.append(Fail(f"fragment-{nm}-distorted", f"{where}: best proper rigid fit rmsd {prop:.3e}"))
@@ -203,7 +221,7 @@ def check_one_join(A, B, apA, apB, kw, cls, where, fails, determinism=True, name
     ia, ib = pos[id(a1r)], pos[id(a2r)]
     L_exp = kw.get("dist") or ((Element(int(a1r.element)).cov_radius_1 or Element.C.cov_radius_1) + (Element(int(a2r.element)).cov_radius_1 or Element.C.cov_radius_1)) or 1.5
     L = float(np.linalg.norm(P.coords[ia] - P.coords[ib]))
-    if abs(L - L_exp) > 1e-6:
+    if abs(L - L_exp) > TOL:
         fails.append(Fail("new-bond-length-wrong", f"{where}: {L:.6f} vs requested/expected {L_exp:.6f}"))
         return P
     # direction, frame-free: A's atoms see B's anchor where A's attachment direction points; and vice versa
@@ -213,7 +231,7 @@ def check_one_join(A, B, apA, apB, kw, cls, where, fails, determinism=True, name
         pt = c_anchor + L_exp * v / np.linalg.norm(v)
         d_src = np.linalg.norm(S - pt, axis=1)
         d_prod = np.linalg.norm(Q - other, axis=1)
-        if np.max(np.abs(d_src - d_prod)) > 1e-6:
+        if np.max(np.abs(d_src - d_prod)) > TOL:
             fails.append(Fail(f"new-bond-not-along-{nm}s-attachment-direction", f"{where}: max distance mismatch {np.max(np.abs(d_src - d_prod)):.3e}"))
             return P
         if len(S) >= 3:
@@ -284,7 +302,7 @@ def _kw(r):
 def check_join(r) -> list[Fail]:
     import molli as ml
 
-    cls = ml.Molecule if r["cls"] == "Molecule" else ml.Structure
+    cls = ml.Molecule if r["cls"] == "Molecule" else _mol32() if r["cls"] == "Molecule32" else ml.Structure
     deg = r.get("degenerate")
     if deg:
         e = [0.5, 0.25, 1.0] if deg != "axis" else [0.0, 0.0, 1.0]
@@ -296,7 +314,7 @@ def check_join(r) -> list[Fail]:
         # A may carry a second attachment point (left over in the product), its attachment atoms may come first in the atom list
         # (index 0 is then an attachment atom), and the one that is used may be an ordinary terminal H while the other one is typed
         A, apsA = build_fragment(dict(r["A"], aps=r["A"]["aps"][:2], ap_first=r.get("ap_first"), ap_plain=r.get("ap_plain")), cls, "a")
-        B, apsB = build_fragment(dict(r["B"], aps=r["B"]["aps"][:1], ap_first=r.get("ap_first_b")), cls, "b")
+        B, apsB = build_fragment(dict(r["B"], aps=r["B"]["aps"][:2], ap_first=r.get("ap_first_b")), cls, "b")      # (B may be a linker with a second, still open attachment point)
     fails: list[Fail] = []
     wrapped = None
     if r.get("wrapped"):
@@ -351,7 +369,7 @@ def _frag(max_n, n_aps=(1, 1)):
 
 def strat_join(tier):
     return st.fixed_dictionaries({
-        "cls": st.sampled_from(["Molecule", "Molecule", "Structure"]), "A": _frag(10, (1, 2)), "B": _frag(10),
+        "cls": st.sampled_from(["Molecule", "Molecule", "Structure", "Molecule32"]), "A": _frag(10, (1, 2)), "B": _frag(10, (1, 2)),
         "ap_first": st.booleans(), "ap_first_b": st.booleans(), "ap_plain": st.booleans(),
         "dist": st.one_of(st.none(), st.floats(0.8, 3.0)), "opt": st.booleans(),
         "charge": st.one_of(st.none(), st.none(), st.just(0), st.integers(-3, 3)), "mult": st.one_of(st.none(), st.integers(1, 5)),
